@@ -7,7 +7,8 @@ Engines
            with get_terminal_size() / get_cell_size() answered by the virtual tty.
   history  explicit-state BFS (a state is the history reaching it, replayed on fresh objects) over
            {set_size(mode[, frame]), size = enum | tuple, width = / height =, terminal resize, cell-size change,
-           set_cell_ratio(float | FIXED | DYNAMIC), render} to the fixpoint, plus an unmerged enumeration of all
+           set_cell_ratio(float | FIXED | DYNAMIC), render, render that fails because the source
+           file is missing} to the fixpoint, plus an unmerged enumeration of all
            histories up to a small depth (guards the state merging).
   urwid    UrwidImage.rows((maxcol,)) against the canvas actually rendered for the same size.
 
@@ -26,10 +27,11 @@ Oracle = the *statement* in exact rational arithmetic (fractions.Fraction), not 
 from __future__ import annotations
 
 import itertools
+import os
 import sys
 from fractions import Fraction as F
 
-from .. import explore, world
+from .. import explore, imgkit, world
 
 ID = "C04"
 LEVEL = "exploration"
@@ -371,6 +373,7 @@ class HistProgram:
             ops.append(("ratio", r))
         if render:
             ops.append(("render",))
+            ops.append(("render_fail",))
         self.ops = ops
         self.set_frames = [tuple(f) for f in set_frames]
 
@@ -383,13 +386,29 @@ class HistState:
     pass
 
 
+_SRC_FILES = {}
+
+
+def src_file(src):
+    """A PNG of the source size private to this process (the failing-render operation renames it away and back).
+    The directory is created by the parent before forking and removed by it at exit."""
+    key = (os.getpid(), tuple(src))
+    path = _SRC_FILES.get(key)
+    if path is None:
+        path = os.path.join(imgkit.tmpdir(), f"c04-{key[0]}-{src[0]}x{src[1]}.png")
+        pil(tuple(src)).save(path)
+        _SRC_FILES[key] = path
+    return path
+
+
 def hist_start(L, prog):
     st = HistState()
     st.env = 0
     term, cell = prog.envs[0]
     world.setup("kitty", term[0], term[1], cell=cell)
     st.ratio = 0.5                 # model of the global cell-ratio setting: float | "DYNAMIC"
-    st.img = family_class(L, prog.fam)(pil(prog.src))
+    # file-sourced, so that a render can be made to fail in the middle (see "render_fail")
+    st.img = family_class(L, prog.fam).from_file(src_file(prog.src))
     st.setting = ("dyn", "FIT")    # model of the size setting: the constructor default is dynamic FIT
     return st
 
@@ -408,7 +427,7 @@ def hist_apply(L, prog, st, op, check):
     bad = []
     kind = op[0]
     before = img.size
-    if kind in ("env", "ratio", "render"):
+    if kind in ("env", "ratio", "render", "render_fail"):
         if kind == "env":
             j = op[1]
             term, cell = prog.envs[j]
@@ -426,6 +445,19 @@ def hist_apply(L, prog, st, op, check):
             else:
                 L.ti.set_cell_ratio(r)
                 st.ratio = r
+        elif kind == "render_fail":
+            # the source file is missing for the duration of one render: the render raises in the middle of
+            # BaseImage._renderer(); whatever it did to the size setting must have been undone
+            path = src_file(prog.src)
+            os.rename(path, path + ".away")
+            try:
+                try:
+                    str(img)
+                    st.failed_renders_that_passed = getattr(st, "failed_renders_that_passed", 0) + 1
+                except OSError:
+                    pass
+            finally:
+                os.rename(path + ".away", path)
         else:
             out = str(img)
             if check:
@@ -786,6 +818,7 @@ def run(ctx):
     global _CTX, _P
     _CTX = ctx
     world.load_urwid()
+    imgkit.tmpdir()                # created (and removed at exit) by the parent; workers put private files in it
     _P, items, bounds = params(ctx.tier)
     # long-running items (history searches) first, then the seed-rotated rest
     slow = [it for it in items if it[0] == "hist"]
